@@ -23,6 +23,8 @@ class SgrState:
 
     def __init__(self):
         self.ul = set()
+        self.last_rgb = None      # colour values are re-used across slots (fg = underline colour, fg = bg, ...)
+        self.last_idx = None
 
     def group(self, rng, in_grammar=True):
         """returns (text of the group(s), number of parameter values it uses)"""
@@ -44,8 +46,12 @@ class SgrState:
             t = rng.choice([38, 48, 58])
             sep = rng.choice([";", ":"])
             if rng.randrange(2):
-                return sep.join([str(t), "5", num(rng, rng.choice([0, 1, 7, 8, 15, 16, 196, 255, rng.randrange(256)]))]), 3
-            return sep.join([str(t), "2"] + [num(rng, rng.choice([0, 1, 127, 255, rng.randrange(256)])) for _ in range(3)]), 5
+                idx = self.last_idx if (self.last_idx is not None and rng.randrange(3) == 0) else rng.choice([0, 1, 7, 8, 15, 16, 196, 255, rng.randrange(256)])
+                self.last_idx = idx
+                return sep.join([str(t), "5", num(rng, idx)]), 3
+            rgb = self.last_rgb if (self.last_rgb is not None and rng.randrange(3) == 0) else [rng.choice([0, 1, 127, 255, rng.randrange(256)]) for _ in range(3)]
+            self.last_rgb = rgb
+            return sep.join([str(t), "2"] + [num(rng, v) for v in rgb]), 5
         if k < 18 or in_grammar:
             return num(rng, rng.choice(NOOP)), 1
         # outside the grammar (model = implementation must still hold)
@@ -97,6 +103,12 @@ class SgrState:
             return [0x1B, 0x5B] + body + [rng.choice(b" !$")] + [0x6D]
         if not parts:
             self.ul = set()    # ESC[m = reset
+        if parts and rng.randrange(25) == 0:
+            # more than 32 parameter values: the parser raises its overflow flag and the sequence changes NOTHING
+            # (not even its first 32 values); padded with simple codes
+            pad = [str(rng.choice([1, 3, 7, 9, 31, 42, 0, 39])) for _ in range(33 - total + rng.randrange(0, 8))]
+            self.ul = saved
+            return [0x1B, 0x5B] + list(";".join(parts + pad).encode()) + [0x6D]
         return [0x1B, 0x5B] + list(";".join(parts).encode()) + [0x6D]
 
 
